@@ -245,6 +245,54 @@ theorem updateHold_nextHid (db : DB) (hid : Nat) (c : Cmd) : (db.updateHold hid 
 theorem noAck_ack (r : Rec) : r.noAckFlag.cmd.ack = false := by show has 0 TF_ACK = false; decide
 theorem noAck_hid (r : Rec) : r.noAckFlag.hid = r.hid := rfl
 
+theorem InvA.relockHold {db : DB} (h : InvA db) (c : Cmd) (x : Nat) (hx : x < db.nextHid ∧ (db.getR x).queued = false) :
+    InvA (db.relockHold c x) := by
+  unfold DB.relockHold
+  simp only []
+  apply InvA.ctrMod
+  have h1 : InvA ((db.modR x (fun r => { r with depth := r.depth + 1 })).modKey c.key (fun k => { k with locked := k.locked + 1 })) := by
+    apply InvA.modKey
+    apply InvA.modR h x
+    · intro _; rfl
+    · intro r _ _ hq; exact hq
+    · intro r hr e1 _
+      have := h.getR_of_mem hr
+      rw [e1] at this; rw [this] at hx; exact hx.2
+    · intro ⟨e0, he, e1⟩ hp
+      have := (h.tabOk e0 he).2.2
+      rw [e1] at this; exact this hp
+  split
+  · rename_i f _
+    have h2 := (h1.modKey c.key (fun k => { k with cell := some (applyFrame k.cell f).1 })).updateHold x c
+    split
+    · exact h2.pushJ _ true (fun _ hh => by rw [noAck_ack] at hh; exact absurd hh (by decide))
+    · exact h2
+  · have h2 := h1.updateHold x c
+    split
+    · exact h2.pushJ _ true (fun _ hh => by rw [noAck_ack] at hh; exact absurd hh (by decide))
+    · exact h2
+
+/-- the identity a `relock` classification names is that of a live holder -/
+theorem classifyLock_relock {db : DB} (h : InvA db) {c : Cmd} {x : Nat} (e : classifyLock db c = .relock x) :
+    x < db.nextHid ∧ (db.getR x).queued = false := by
+  unfold classifyLock at e
+  simp only [] at e
+  split at e
+  · simp at e
+  · split at e
+    · split at e
+      · rename_i r hr
+        have hm := findHolder_mem hr
+        split at e
+        · simp at e
+        · split at e
+          · simp at e; subst e
+            rw [h.getR_of_mem hm.1]
+            exact ⟨h.hidLt r hm.1, h.heldNQ r hm.1 hm.2⟩
+          · simp at e
+      · split at e <;> (try split at e) <;> simp at e
+    · split at e <;> (try split at e) <;> simp at e
+
 theorem InvA.opLock {db : DB} (h : InvA db) (c : Cmd) : InvA (opLock db c).1 := by
   unfold Slock.Ack.opLock
   cases e : classifyLock db c with
@@ -253,51 +301,9 @@ theorem InvA.opLock {db : DB} (h : InvA db) (c : Cmd) : InvA (opLock db c).1 := 
   | relockRefused x => exact h
   | timeout => exact h
   | relock x =>
-    -- x is the identity of a live holder
-    have hx : x < db.nextHid ∧ (db.getR x).queued = false := by
-      unfold classifyLock at e
-      simp only [] at e
-      split at e
-      · simp at e
-      · split at e
-        · split at e
-          · rename_i r hr
-            have hm := findHolder_mem hr
-            split at e
-            · simp at e
-            · split at e
-              · simp at e; subst e
-                rw [h.getR_of_mem hm.1]
-                exact ⟨h.hidLt r hm.1, h.heldNQ r hm.1 hm.2⟩
-              · simp at e
-          · split at e <;> (try split at e) <;> simp at e
-        · split at e <;> (try split at e) <;> simp at e
     unfold applyLock
     simp only []
-    apply InvA.ctrMod
-    have h1 : InvA ((db.modR x (fun r => { r with depth := r.depth + 1 })).modKey c.key (fun k => { k with locked := k.locked + 1 })) := by
-      apply InvA.modKey
-      apply InvA.modR h x
-      · intro _; rfl
-      · intro r _ _ hq; exact hq
-      · intro r hr e1 _
-        have := h.getR_of_mem hr
-        rw [e1] at this; rw [this] at hx; exact hx.2
-      · intro ⟨e0, he, e1⟩ hp
-        have := (h.tabOk e0 he).2.2
-        rw [e1] at this; exact this hp
-    have hq1 : (((db.modR x (fun r => { r with depth := r.depth + 1 })).modKey c.key (fun k => { k with locked := k.locked + 1 })).getR x).queued = false := by
-      rw [getR_modKey, queued_modR_pres _ x _ (by intro _; rfl) (by intro _; rfl)]; exact hx.2
-    split
-    · rename_i f _
-      have h2 := (h1.modKey c.key (fun k => { k with cell := some (applyFrame k.cell f).1 })).updateHold x c
-      split
-      · exact h2.pushJ _ true (fun _ hh => by rw [noAck_ack] at hh; exact absurd hh (by decide))
-      · exact h2
-    · have h2 := h1.updateHold x c
-      split
-      · exact h2.pushJ _ true (fun _ hh => by rw [noAck_ack] at hh; exact absurd hh (by decide))
-      · exact h2
+    exact (h.relockHold c x (classifyLock_relock h e)).wake _ _
   | grant =>
     unfold applyLock
     simp only []
@@ -373,25 +379,30 @@ theorem InvA.opUnlock {db : DB} (h : InvA db) (c : Cmd) : InvA (opUnlock db c).1
     apply InvA.modKey
     exact h.modR_irrel x _ (irrel_expried true)
 
+theorem InvA.dropWaiter {db : DB} (h : InvA db) (hid : Nat) : InvA (db.dropWaiter hid) := by
+  have h0 : InvA (db.modR hid (fun r => { r with timeouted := true })) := h.modR_irrel hid _ (irrel_timeouted true)
+  unfold DB.dropWaiter
+  simp only []
+  apply InvA.ctrMod
+  have h1 : InvA ((db.modR hid (fun r => { r with timeouted := true })).modR hid (fun r => { r with queued := false })) := by
+    apply InvA.modR h0 hid
+    · intro _; rfl
+    · intro r _ _ hq; simp at hq
+    · intro r _ _ _; rfl
+    · intro ⟨e, he, e1⟩ hp
+      have := (h0.tabOk e he).2.2
+      rw [e1] at this; exact this hp
+  split
+  · exact h1.modKey _ _
+  · exact h1
+
 theorem InvA.fireTimeout {db : DB} (h : InvA db) (hid : Nat) : InvA (fireTimeout db hid).1 := by
   have h0 : InvA (db.modR hid (fun r => { r with timeouted := true })) := h.modR_irrel hid _ (irrel_timeouted true)
   unfold Slock.Ack.fireTimeout
   simp only []
   split
   · exact ((h0.rollback hid).ctrMod _).wake _ _
-  · dsimp only
-    apply InvA.ctrMod
-    have h1 : InvA ((db.modR hid (fun r => { r with timeouted := true })).modR hid (fun r => { r with queued := false })) := by
-      apply InvA.modR h0 hid
-      · intro _; rfl
-      · intro r _ _ hq; simp at hq
-      · intro r _ _ _; rfl
-      · intro ⟨e, he, e1⟩ hp
-        have := (h0.tabOk e he).2.2
-        rw [e1] at this; exact this hp
-    split
-    · exact h1.modKey _ _
-    · exact h1
+  · exact (h.dropWaiter hid).wake _ _
 
 theorem InvA.fireExpire {db : DB} (h : InvA db) (hid : Nat) : InvA (fireExpire db hid).1 := by
   unfold Slock.Ack.fireExpire
